@@ -1151,6 +1151,22 @@ func checkCallback(c *checkCtx) {
 			c.noObservation("no message ever arrived while a callback was in process")
 		}
 	}
+	// ---- directed: OnData already waits inside a read for more than has arrived when the rest arrives
+	for i := 0; i < c.pick(6, 120) && ownViolations == 0; i++ {
+		viol, inc := cbkDirectedLateData(c, i)
+		name := fmt.Sprintf("directed-late-data-%d", i)
+		if inc != "" {
+			c.inconclusiveCase(name, inc)
+			continue
+		}
+		c.eval(1)
+		c.count("directed late-data cases (OnData parked in a read when the rest of the record arrives)", 1)
+		c.nontrivial(fmt.Sprintf("late-data/%d", i%4))
+		if viol != "" {
+			ownViolations++
+			c.violation(name, map[string]interface{}{"index": i}, "%s", viol)
+		}
+	}
 	// ---- race-detector pass: evidence (pairs listed) plus one sound sentinel: the recorder's deliberately plain per-stream
 	// counter is written by every OnData invocation; on a correct tree consecutive invocations are ordered by the atomics on
 	// callbackInProcess / the goroutine start, so a report with both stacks inside the recorder's OnData means two invocations
@@ -1184,4 +1200,125 @@ func cbkMin(a, b int) int {
 		return a
 	}
 	return b
+}
+
+// ---------------------------------------------------------------------------------------------
+// cbkDirectedLateData: a record arrives in two flushes; OnData is entered with the first part and asks for the whole record
+// (a blocking read inside the callback). The second part arrives while that read waits: no new callback goroutine is started
+// (one is in process), so the bytes only become available if the waiting read is woken. Every byte must be consumed, in order.
+type cbkLateCb struct {
+	key            uint64
+	first, total   int
+	entered, done  chan struct{}
+	once           sync.Once
+	got            int32
+	bad            int32
+	err            atomic.Value
+	nLocal, nRemot int32
+}
+
+func (l *cbkLateCb) OnData(r BufferReader) {
+	fresh := false
+	l.once.Do(func() { fresh = true })
+	if !fresh {
+		if n := r.Len(); n > 0 {
+			r.ReadBytes(n)
+			r.ReleasePreviousRead()
+		}
+		return
+	}
+	close(l.entered)
+	b, err := r.ReadBytes(l.total)
+	if err != nil {
+		l.err.Store(cbkErr{err})
+	} else {
+		atomic.StoreInt32(&l.got, int32(len(b)))
+		if i := checkKeyed(b, l.key, 0); i >= 0 {
+			atomic.StoreInt32(&l.bad, int32(i)+1)
+		}
+		r.ReleasePreviousRead()
+	}
+	close(l.done)
+}
+func (l *cbkLateCb) OnLocalClose()  { atomic.AddInt32(&l.nLocal, 1) }
+func (l *cbkLateCb) OnRemoteClose() { atomic.AddInt32(&l.nRemot, 1) }
+
+func cbkDirectedLateData(c *checkCtx, idx int) (viol string, inc string) {
+	rng := caseRand(c.seed, 1480000+idx)
+	p, err := newSessionPair(pairOpt{memfd: idx%2 == 0})
+	if err != nil {
+		return "", "pair: " + err.Error()
+	}
+	defer p.close()
+	cl, err := p.client.OpenStream()
+	if err != nil {
+		return "", "open: " + err.Error()
+	}
+	first := 1 + rng.Intn(200)
+	total := first + 1 + rng.Intn(5000)
+	cb := &cbkLateCb{key: uint64(0xC20000 + idx), first: first, total: total, entered: make(chan struct{}), done: make(chan struct{})}
+	if err := cl.SetCallbacks(cb); err != nil {
+		return "", "SetCallbacks: " + err.Error()
+	}
+	cl.BufferWriter().WriteBytes([]byte("go"))
+	if err := cl.Flush(false); err != nil {
+		return "", "flush: " + err.Error()
+	}
+	sv := p.serverStream(cl.StreamID(), 10*time.Second)
+	if sv == nil {
+		return "", "server stream did not appear"
+	}
+	sv.BufferReader().ReadBytes(2)
+	sv.BufferReader().ReleasePreviousRead()
+	data := make([]byte, total)
+	fillKeyed(data, cb.key, 0)
+	sv.BufferWriter().WriteBytes(data[:first])
+	if err := sv.Flush(false); err != nil {
+		return "", "server flush: " + err.Error()
+	}
+	select {
+	case <-cb.entered:
+	case <-time.After(10 * time.Second):
+		return "", "OnData was not entered"
+	}
+	// let the read park (it has the first part only)
+	time.Sleep(time.Duration(1+rng.Intn(4)) * time.Millisecond)
+	cn := startCanary()
+	defer cn.close()
+	sv.BufferWriter().WriteBytes(data[first:])
+	if err := sv.Flush(false); err != nil {
+		return "", "server flush 2: " + err.Error()
+	}
+	p.quiesce(10 * time.Second)
+	fenceN(2)
+	select {
+	case <-cb.done:
+	case <-time.After(8 * time.Second):
+		if !cn.healthy(500 * time.Millisecond) {
+			cl.Close()
+			return "", "read not finished, scheduler canary unhealthy"
+		}
+		pend := 0
+		cl.pendingData.Lock()
+		pend = len(cl.pendingData.unread)
+		cl.pendingData.Unlock()
+		cl.Close()
+		select {
+		case <-cb.done:
+		case <-time.After(10 * time.Second):
+		}
+		return fmt.Sprintf("directed late-data: the peer flushed a record of %d bytes in two parts (%d + %d); OnData was entered with the first part and asked for the whole record; "+
+			"8 s after the second part was flushed (pair quiescent, fences passed) the bytes have not been offered: the read inside OnData still waits "+
+			"(buffers delivered to the stream and never looked at: %d)", total, first, total-first, pend), ""
+	}
+	if e, _ := cb.err.Load().(cbkErr); e.e != nil {
+		return fmt.Sprintf("directed late-data: the read inside OnData failed with %v although the peer flushed all %d bytes and nobody closed", e.e, total), ""
+	}
+	if got := int(atomic.LoadInt32(&cb.got)); got != total {
+		return fmt.Sprintf("directed late-data: OnData's ReadBytes(%d) returned %d bytes", total, got), ""
+	}
+	if b := atomic.LoadInt32(&cb.bad); b > 0 {
+		return fmt.Sprintf("directed late-data: byte %d of the record differs from what the peer flushed", b-1), ""
+	}
+	return "", ""
 }
